@@ -136,10 +136,12 @@ Lemma sorted_stmt s st m :
   sorted_step s (e_store (run_stmt s st)) (e_batch (run_stmt s st)).
 Proof.
   intros G Hd Hout. destruct st; try discriminate; cbn [run_stmt] in *.
-  - destruct (insert_rows s table cols rows [] 0) as [[b' B] o] eqn:E. cbn [e_out e_batch e_store] in *. subst o.
+  - destruct (first_err _ rows) as [u|e0|]; try discriminate.
+    destruct (insert_rows s table cols rows [] 0) as [[b' B] o] eqn:E. cbn [e_out e_batch e_store] in *. subst o.
     destruct (sorted_insert_rows rows s table cols [] 0%nat b' B m G E) as (ws & -> & S). exact S.
   - destruct (existsb _ sets); [discriminate|].
     destruct (where_ids s table where_) as [ids|e|]; try discriminate.
+    destruct (first_err _ ids) as [u|e0|]; try discriminate.
     destruct (update_rows s table _ _ ids []) as [[b' B] o] eqn:E. cbn [e_out e_batch e_store] in *. subst o.
     destruct (sorted_update_rows ids s table _ _ [] b' B m G E) as (ws & -> & S). exact S.
   - destruct (where_ids s table where_) as [ids|e|]; try discriminate.
@@ -272,9 +274,11 @@ Lemma flushed_store_clean s st : e_flushed (run_stmt s st) = true ->
 Proof.
   destruct st; cbn [run_stmt]; try (cbn; discriminate).
   - destruct (st_create_table s name _) as [s1 [u|e|]]; cbn; try discriminate. intros _. apply flush_clean.
-  - destruct (insert_rows s table cols rows [] 0) as [[s1 b] o]. cbn. discriminate.
+  - destruct (first_err _ rows) as [u|e|]; try (cbn; discriminate).
+    destruct (insert_rows s table cols rows [] 0) as [[s1 b] o]. cbn. discriminate.
   - destruct (existsb _ sets); [cbn; discriminate|].
     destruct (where_ids s table where_) as [ids|e|]; try (cbn; discriminate).
+    destruct (first_err _ ids) as [u|e|]; try (cbn; discriminate).
     destruct (update_rows s table _ _ ids []) as [[s1 b] o]. cbn. discriminate.
   - destruct (where_ids s table where_) as [ids|e|]; try (cbn; discriminate).
     destruct (delete_rows s table ids [] 0) as [[s1 b] o]. cbn. discriminate.
